@@ -27,10 +27,11 @@ NATIVE = {
 }
 
 
-def setup(T, NODE, CTX, variant, has_any=False):
+def setup(T, NODE, CTX, variant, has_any=False, prefix="C02"):
     S = S_()
     S.T, S.node, S.ctx, S.variant, S.has_any = T, NODE, CTX, variant, has_any
     S.opts = NATIVE.get(variant, oracle.PLAIN)
+    S.prefix = prefix
     if variant == "codec":
         S.encode = BasicEncoder(T).encode
         S.wrap = lambda v: v
@@ -60,15 +61,15 @@ def main(S, env):
     v = S.wrap(S.node.make(env))
     st, d = call(S.encode, v)
     if st == "exc":
-        return fail("C02/encode-raised:%s" % type(d).__name__, value=v, exc=d)
+        return fail(S.prefix + "/encode-raised:%s" % type(d).__name__, value=v, exc=d)
     st, ref = call(oracle.ref_encode, S.RT, v, S.opts)
     if st == "exc":
         raise AssertionError("oracle failed: %r" % (ref,))
     if not oracle.exact_eq(d, ref):
-        return fail("C02/form-mismatch:%s" % first_diff(d, ref), value=v, real=d, reference=ref)
+        return fail(S.prefix + "/form-mismatch:%s" % first_diff(d, ref), value=v, real=d, reference=ref)
     if S.variant in ("codec", "field") and not S.has_any:
         if not oracle.basic_only(d):
-            return fail("C02/not-basic", value=v, real=d)
+            return fail(S.prefix + "/not-basic", value=v, real=d)
         if not tracing_now():
             # stub validation: basic_only is json.dumps' acceptance condition
             json.dumps(d)
